@@ -25,10 +25,10 @@ def ShutdownRequested (s : State) : Prop :=
   s.sigReady = true ∨ s.ended = true ∨ s.loopRunning = false
 
 /-- The server's own steps that do not take up anything new: every internal step except the
-completion of an HTTP/2 handshake and the acceptance of a new stream.  Draining a server needs only
-these. -/
+completion of an HTTP/2 handshake, the acceptance of a new stream and the request timeout cutting a
+call short.  Draining a server needs only these. -/
 def Label.drains : Label → Bool
-  | .hsDone .. | .callStart .. => false
+  | .hsDone .. | .callStart .. | .expire .. => false
   | l => l.internal
 
 theorem Label.drains_internal {l : Label} (h : l.drains = true) : l.internal = true := by
@@ -184,10 +184,10 @@ that guarantees progress, some finite run of internal steps reaches a resolved s
 theorem drain (P : State → Prop)
     (hstep : ∀ s l s', Good s → P s → l.internal = true → step s l = some s' → P s')
     (hprog : ∀ s, Good s → P s → s.resolved = false →
-      ∃ l, l.internal = true ∧ (step s l).isSome = true) :
+      ∃ l, l.internal = true ∧ l.drains = true ∧ (step s l).isSome = true) :
     ∀ (n : Nat) (s : State), weight s ≤ n → Good s → P s →
-      ∃ ls s', (∀ l ∈ ls, l.internal = true) ∧ run s ls = some s' ∧ s'.resolved = true
-        ∧ ls.length ≤ n := by
+      ∃ ls s', (∀ l ∈ ls, l.internal = true ∧ l.drains = true) ∧ run s ls = some s'
+        ∧ s'.resolved = true ∧ ls.length ≤ n := by
   intro n
   induction n with
   | zero =>
@@ -195,7 +195,7 @@ theorem drain (P : State → Prop)
     cases hr : s.resolved with
     | true => exact ⟨[], s, by simp, rfl, hr, by simp⟩
     | false =>
-      obtain ⟨l, hi, hs⟩ := hprog s hg hp hr
+      obtain ⟨l, hi, _, hs⟩ := hprog s hg hp hr
       obtain ⟨s1, hs1⟩ := Option.isSome_iff_exists.1 hs
       have := internal_step_decreases hi hs1
       omega
@@ -204,7 +204,7 @@ theorem drain (P : State → Prop)
     cases hr : s.resolved with
     | true => exact ⟨[], s, by simp, rfl, hr, by simp⟩
     | false =>
-      obtain ⟨l, hi, hs⟩ := hprog s hg hp hr
+      obtain ⟨l, hi, hdr, hs⟩ := hprog s hg hp hr
       obtain ⟨s1, hs1⟩ := Option.isSome_iff_exists.1 hs
       have hlt := internal_step_decreases hi hs1
       obtain ⟨ls, s', hall, hrun, hres, hlen⟩ :=
@@ -212,7 +212,7 @@ theorem drain (P : State → Prop)
       refine ⟨l :: ls, s', ?_, ?_, hres, by simp only [List.length_cons]; omega⟩
       · intro x hx
         rcases List.mem_cons.1 hx with rfl | hx
-        · exact hi
+        · exact ⟨hi, hdr⟩
         · exact hall x hx
       · simp only [run, hs1]
         exact hrun
@@ -272,6 +272,11 @@ theorem allClosed_step {s s' : State} {l : Label} (hrun : s.loopRunning = false)
   case callStart c j => exact allClosed_updCall ha h
   case produce c j => exact allClosed_updCall ha h
   case deliver c j => exact allClosed_updCall ha h
+  case expire c j =>
+    simp only [step] at h
+    split at h
+    · exact allClosed_updCall ha h
+    · cases h
 
 /-- with every accepted connection closed, no handler can be waiting on an open connection -/
 theorem unblocked_of_allClosed {s : State} (hg : Good s) (ha : AllClosed s) : Unblocked s := by
@@ -361,5 +366,10 @@ theorem requestsDone_step {s s' : State} {l : Label} (hd : RequestsDone s) (hi :
     unfold Call.produce
     split <;> exact ⟨rfl, rfl⟩
   case deliver c j => exact viaCall h (fun _ => ⟨rfl, rfl⟩)
+  case expire c j =>
+    simp only [step] at h
+    split at h
+    · exact viaCall h (fun _ => ⟨rfl, rfl⟩)
+    · cases h
 
 end Shutdown
